@@ -519,6 +519,7 @@ func C15Metadata(c *core.Ctx) {
 
 	// by value / by pointer / nested, and EntitiesDescriptor groups
 	containerCases(c, g)
+	instantForms(c)
 
 	// the documents the library generates
 	oldNow := saml.TimeNow
